@@ -5,6 +5,7 @@ autograd of built-in operations, represented in the model by the parameter `dJ`.
 -/
 import Proofs.Lemmas.AutogradNodes
 set_option maxRecDepth 10000
+set_option maxHeartbeats 1000000
 set_option linter.unusedSimpArgs false
 set_option linter.unusedVariables false
 namespace PP.AD
@@ -178,5 +179,123 @@ theorem djSpec_SO3_zero (eps : ℝ) (heps : 0 < eps) (p0 : DVec ℝ) (hp : p0.le
   · simp [dJzero, Mat3.toRows, Vec3.toList, DMat.mulVec, ddot_cons, v3]
     lie_unfold
     refine ⟨?_, ?_, ?_⟩ <;> ring
+
+/-! ## a witness of the contract away from the zero rotation (`SO3`, closed-form branch) -/
+
+/-- velocity of the matrix `1 − K(ψ)/2 + c·K(ψ)²` along curves `ψ(t)`, `c(t)` -/
+noncomputable def jlinvVel (ψ b : Vec3 ℝ) (c cd : ℝ) : Mat3 ℝ :=
+  Mat3.add (Mat3.smul (-(1/2)) (Mat3.hat b))
+    (Mat3.add (Mat3.smul cd ((Mat3.hat ψ).mul (Mat3.hat ψ)))
+      (Mat3.smul c (Mat3.add ((Mat3.hat b).mul (Mat3.hat ψ)) ((Mat3.hat ψ).mul (Mat3.hat b)))))
+
+theorem jlinv_entries_curve (p0 p1 p2 cc : ℝ → ℝ) (b0 b1 b2 cd : ℝ)
+    (hp0 : HasDerivAt p0 b0 0) (hp1 : HasDerivAt p1 b1 0) (hp2 : HasDerivAt p2 b2 0) (hcc : HasDerivAt cc cd 0) :
+    ∀ i, i < 3 → ∀ j, j < 3 →
+      HasDerivAt (fun t => nth ((polyK 1 (-(1/2)) (cc t) ⟨p0 t, p1 t, p2 t⟩).toRows.getD i []) j)
+        (nth ((jlinvVel ⟨p0 0, p1 0, p2 0⟩ ⟨b0, b1, b2⟩ (cc 0) cd).toRows.getD i []) j) 0 := by
+  have e0 := hp0.differentiableAt; have e1 := hp1.differentiableAt; have e2 := hp2.differentiableAt
+  have ec := hcc.differentiableAt
+  intro i hi j hj
+  interval_cases i <;> interval_cases j
+  all_goals
+    simp only [polyK, jlinvVel, Mat3.toRows, Vec3.toList, List.getD_cons_zero, List.getD_cons_succ, nth_cons_zero, nth_cons_succ]
+    lie_unfold
+    try simp only [nth_cons_zero, nth_cons_succ]
+    refine HasDerivAt.congr_deriv (DifferentiableAt.hasDerivAt (by fun_prop (disch := assumption))) ?_
+    simp (disch := first | assumption | fun_prop (disch := assumption)) only [deriv_fun_add, deriv_fun_sub, deriv_fun_mul,
+      deriv_const, deriv_const_mul_field, deriv.fun_neg, hp0.deriv, hp1.deriv, hp2.deriv, hcc.deriv]
+    ring
+
+/-- the scalar coefficient of `so3_Jl_inv` (closed form) -/
+noncomputable def cInv (θ : ℝ) : ℝ := (1 - θ * Real.cos (1/2 * θ) / (2 * Real.sin (1/2 * θ))) / (θ * θ)
+
+/-- the analytic derivative of `φ ↦ so3_Jl_inv(φ)·p` (closed-form branch) as a matrix acting on `δφ` -/
+noncomputable def dJso3 (φ p : Vec3 ℝ) : Mat3 ℝ :=
+  let K := Mat3.hat φ
+  let θ := φ.norm
+  Mat3.add (Mat3.smul (1/2) (Mat3.hat p))
+    (Mat3.sub (Mat3.smul (deriv cInv θ / θ) (Mat3.outer ((K.mul K).mulVec p) φ))
+      (Mat3.smul (cInv θ) (Mat3.add (Mat3.hat (φ.cross p)) (K.mul (Mat3.hat p)))))
+
+/-- an explicit kernel for `SO3`: the analytic derivative on the closed-form branch -/
+noncomputable def dJclosed : DJ ℝ := fun g _ φ p =>
+  match g with
+  | .SO3 => (dJso3 (v3 φ) (v3 p)).toRows
+  | g => DMat.zero g.adim g.adim
+
+theorem cInv_differentiable (θ : ℝ) (hθ : θ ≠ 0) (hs : Real.sin (1/2 * θ) ≠ 0) : DifferentiableAt ℝ cInv θ := by
+  unfold cInv
+  have h2 : 2 * Real.sin (1/2 * θ) ≠ 0 := mul_ne_zero (by norm_num) hs
+  have h3 : θ * θ ≠ 0 := mul_ne_zero hθ hθ
+  fun_prop (disch := assumption)
+
+/-- **the `Jinvp` kernel contract is satisfiable away from the zero rotation**: the analytic kernel `dJclosed` meets `DJSpec` for `SO3`
+at every `φ₀` on the closed-form branch (`θ₀ > eps`, `sin(θ₀/2) ≠ 0`) and every `p₀`. -/
+theorem djSpec_SO3_closed (eps : ℝ) (heps : 0 ≤ eps) (φ0 p0 : DVec ℝ) (hφl : φ0.length = 3) (hp : p0.length = 3)
+    (hth : eps < (v3 φ0).norm) (hs : Real.sin (1/2 * (v3 φ0).norm) ≠ 0) : DJSpec dJclosed .SO3 eps φ0 p0 := by
+  intro φ d hφ0 hφlen hd hL
+  obtain ⟨d0, d1, d2, rfl⟩ := len3 _ hd
+  obtain ⟨y0, y1, y2, rfl⟩ := len3 _ hp
+  have h0 := hL 0 (by simp [Grp.adim]); have h1 := hL 1 (by simp [Grp.adim]); have h2 := hL 2 (by simp [Grp.adim])
+  simp only [nth_cons_zero, nth_cons_succ] at h0 h1 h2
+  set q0 := nth (φ 0) 0 with hq0
+  set q1 := nth (φ 0) 1 with hq1
+  set q2 := nth (φ 0) 2 with hq2
+  have hv0 : v3 φ0 = ⟨q0, q1, q2⟩ := by rw [← hφ0]; simp [v3, hq0, hq1, hq2]
+  rw [hv0] at hth hs
+  have hn : ∀ t, (v3 (φ t)).norm = Real.sqrt (nth (φ t) 0 * nth (φ t) 0 + nth (φ t) 1 * nth (φ t) 1 + nth (φ t) 2 * nth (φ t) 2) := by
+    intro t; simp [Vec3.norm, Vec3.normSq, v3]
+  have hn0 : (⟨q0, q1, q2⟩ : Vec3 ℝ).norm = Real.sqrt (q0 * q0 + q1 * q1 + q2 * q2) := by simp [Vec3.norm, Vec3.normSq]
+  set θ0 := Real.sqrt (q0 * q0 + q1 * q1 + q2 * q2) with hθ0
+  rw [hn0] at hth hs
+  have hθpos : 0 < θ0 := lt_of_le_of_lt heps hth
+  have hsq : q0 * q0 + q1 * q1 + q2 * q2 ≠ 0 := by
+    intro h; rw [hθ0, h, Real.sqrt_zero] at hθpos; exact lt_irrefl _ hθpos
+  -- θ(t) and c(θ(t))
+  have hS : HasDerivAt (fun t => nth (φ t) 0 * nth (φ t) 0 + nth (φ t) 1 * nth (φ t) 1 + nth (φ t) 2 * nth (φ t) 2)
+      (2 * (q0 * d0 + q1 * d1 + q2 * d2)) 0 := by
+    have := ((h0.mul h0).add (h1.mul h1)).add (h2.mul h2)
+    refine this.congr_deriv ?_
+    simp only [← hq0, ← hq1, ← hq2]; ring
+  have hθ : HasDerivAt (fun t => Real.sqrt (nth (φ t) 0 * nth (φ t) 0 + nth (φ t) 1 * nth (φ t) 1 + nth (φ t) 2 * nth (φ t) 2))
+      ((q0 * d0 + q1 * d1 + q2 * d2) / θ0) 0 := by
+    have := hS.sqrt (by simpa [← hq0, ← hq1, ← hq2] using hsq)
+    refine this.congr_deriv ?_
+    simp only [← hq0, ← hq1, ← hq2, ← hθ0]
+    field_simp
+  have hcd := cInv_differentiable θ0 (ne_of_gt hθpos) hs
+  have hc : HasDerivAt (fun t => cInv (Real.sqrt (nth (φ t) 0 * nth (φ t) 0 + nth (φ t) 1 * nth (φ t) 1 + nth (φ t) 2 * nth (φ t) 2)))
+      (deriv cInv θ0 * ((q0 * d0 + q1 * d1 + q2 * d2) / θ0)) 0 := by
+    have hc0 : HasDerivAt cInv (deriv cInv θ0) ((fun t => Real.sqrt (nth (φ t) 0 * nth (φ t) 0 + nth (φ t) 1 * nth (φ t) 1 + nth (φ t) 2 * nth (φ t) 2)) 0) := by
+      simp only [← hq0, ← hq1, ← hq2, ← hθ0]; exact hcd.hasDerivAt
+    exact hc0.comp 0 hθ
+  have hNc : ContinuousAt (fun t => Real.sqrt (nth (φ t) 0 * nth (φ t) 0 + nth (φ t) 1 * nth (φ t) 1 + nth (φ t) 2 * nth (φ t) 2)) 0 := hθ.continuousAt
+  have hev : ∀ᶠ t in nhds (0:ℝ), eps < (v3 (φ t)).norm := by
+    have := hNc.eventually (lt_mem_nhds (by simpa [← hq0, ← hq1, ← hq2, ← hθ0] using hth))
+    filter_upwards [this] with t ht
+    rw [hn]; exact ht
+  have hent := jlinv_entries_curve (fun t => nth (φ t) 0) (fun t => nth (φ t) 1) (fun t => nth (φ t) 2)
+    (fun t => cInv (Real.sqrt (nth (φ t) 0 * nth (φ t) 0 + nth (φ t) 1 * nth (φ t) 1 + nth (φ t) 2 * nth (φ t) 2)))
+    d0 d1 d2 _ h0 h1 h2 hc
+  simp only [← hq0, ← hq1, ← hq2, ← hθ0] at hent
+  refine ⟨(jlinvVel ⟨q0, q1, q2⟩ ⟨d0, d1, d2⟩ (cInv θ0) (deriv cInv θ0 * ((q0 * d0 + q1 * d1 + q2 * d2) / θ0))).toRows, ?_, ?_, ?_⟩
+  · simp [Shape, Grp.adim, Mat3.toRows, Vec3.toList]
+  · intro i hi j hj
+    simp only [Grp.adim] at hi hj
+    refine (hent i hi j hj).congr_of_eventuallyEq ?_
+    filter_upwards [hev] with t ht
+    have hcl := so3JlInv_closed eps (v3 (φ t)) ht
+    rw [hn t] at hcl
+    simp only [JlInvMat]
+    rw [hcl]
+    simp [cInv, v3]
+  · rw [← hφ0]
+    simp only [dJclosed, dJso3, jlinvVel, toRows_mulVec, v3, nth_cons_zero, nth_cons_succ, ← hq0, ← hq1, ← hq2, Nat.zero_add]
+    have hn0' : (⟨q0, q1, q2⟩ : Vec3 ℝ).norm = θ0 := hn0
+    rw [hn0']
+    generalize deriv cInv θ0 = c'
+    generalize cInv θ0 = c
+    apply congrArg
+    apply Vec3.ext' <;> lie_unfold <;> field_simp <;> ring
 
 end PP.AD
